@@ -62,6 +62,12 @@ var c17Extra = []CorpusItem{
 	{"fail:rtiterinelse", "h{% for r in [] %}n{% else %}[{% for v in a %}x{% endfor %}]{% endfor %}t"},
 	{"fail:rtiterinblock", "h{% block q %}{% for r in arr %}[{% for v in a %}x{% endfor %}]{% endfor %}{% endblock %}t"},
 	{"fail:rtiterdeep", "h{% for r in arr %}{% for s in arr %}{% for v in a %}x{% endfor %}{% endfor %}{% endfor %}t"},
+	// large outputs (80 KB and 2.4 MB values: beyond the size of any buffer a safe execution may use) before a failure
+	{"bigok", "a{{ big }}b{{ big }}c"},
+	{"fail:bigthenrt", "a{{ big }}b{{ big }}c{{ nofunc() }}d"},
+	{"fail:bigthenmissing", "a{{ big }}{% include 'nosuch' %}d"},
+	{"fail:hugethenrt", "a{{ huge }}b{{ a|nofilter }}d"},
+	{"fail:biginloop", "{% for v in arr %}{{ big }}{% endfor %}{% for v in a %}{% endfor %}"},
 	{"filtparent", "{% extends 'base2' %}{% block a %}{% filter up %}f{{ parent() }}{% endfilter %}{% endblock %}"},
 }
 
@@ -93,6 +99,9 @@ func c17Corpus(tier string) []CorpusItem {
 }
 
 var errFault = errors.New("injected fault")
+
+var c17Big = strings.Repeat("0123456789abcdef", 5000)
+var c17Huge = strings.Repeat("0123456789abcdef", 150000)
 
 // faultWriter fails at its k-th Write (1-based); flavour 0: (0, err) and persistently afterwards;
 // 1: (n/2, err) and persistently afterwards; 2: fails at k only and accepts later writes.
@@ -191,10 +200,12 @@ func c17Exec(main string, safe bool, wk, wflav, lj int) c17Run_ {
 				r.pan = panicInfo(p)
 			}
 		}()
+		ctx := stdCtx()
+		ctx["big"], ctx["huge"] = c17Big, c17Huge
 		if safe {
-			r.err = env.ExecuteSafe("main", r.w, stdCtx())
+			r.err = env.ExecuteSafe("main", r.w, ctx)
 		} else {
-			r.err = env.Execute("main", r.w, stdCtx())
+			r.err = env.Execute("main", r.w, ctx)
 		}
 	}()
 	return r
